@@ -133,7 +133,21 @@ func ValidateArea(a *AreaFeature, features b6.FeaturesByID) error {
 		if ids, ok := a.PathIDs(i); ok {
 			for _, id := range ids {
 				if path := features.FindFeatureByID(id); path != nil {
-					if err := ValidatePathForArea(path.(b6.PhysicalFeature)); err != nil {
+					// ValidatePathForArea compares the locations of the first
+					// and last points of the path, which panics if they can't
+					// be resolved - for example, when a point of the path is
+					// being replaced by one without a location.
+					physical := path.(b6.PhysicalFeature)
+					for _, i := range []int{0, physical.GeometryLen() - 1} {
+						if i >= 0 {
+							if point := path.Reference(i).Source(); point.IsValid() {
+								if _, err := features.FindLocationByID(point); err != nil {
+									return fmt.Errorf("%s: path %s missing point %s", a.AreaID, id, point)
+								}
+							}
+						}
+					}
+					if err := ValidatePathForArea(physical); err != nil {
 						return err
 					}
 				} else {
